@@ -1,6 +1,8 @@
 package fsm
 
 import (
+	"bytes"
+	"fmt"
 	"github.com/canopy-network/canopy/lib"
 	"github.com/canopy-network/canopy/lib/crypto"
 	"google.golang.org/protobuf/types/known/anypb"
@@ -119,6 +121,12 @@ func (s *StateMachine) CheckTx(transaction []byte, txHash string, batchVerifier 
 	if err = lib.Unmarshal(transaction, tx); err != nil {
 		return
 	}
+	// only the canonical encoding of a transaction is accepted: replay protection is keyed by the hash of the
+	// raw bytes while the signature covers the decoded content, so a re-encoding of an included transaction
+	// would otherwise be a 'new' transaction that carries a valid signature
+	if canonical, e := lib.Marshal(tx); e != nil || !bytes.Equal(canonical, transaction) {
+		return nil, lib.ErrUnmarshal(fmt.Errorf("non-canonical transaction encoding"))
+	}
 	// perform basic validations against the tx object
 	if err = tx.CheckBasic(); err != nil {
 		return
@@ -228,6 +236,11 @@ func (s *StateMachine) CheckSignature(tx *lib.Transaction, authorizedSigners [][
 	publicKey, e := crypto.NewPublicKeyFromBytes(tx.Signature.PublicKey)
 	if e != nil {
 		return nil, ErrInvalidPublicKey(e)
+	}
+	// the public key must be in its canonical encoding (the signed content excludes the signature field,
+	// so an alternative encoding of the same key would change the transaction hash but not its validity)
+	if !bytes.Equal(publicKey.Bytes(), tx.Signature.PublicKey) {
+		return nil, ErrInvalidPublicKey(fmt.Errorf("non-canonical public key encoding"))
 	}
 	// Legacy "RLP" was historically an ordinary memo for non-Ethereum keys.
 	// RLP.V2 is reserved and always requires an Ethereum key.
